@@ -38,7 +38,8 @@ def main() -> int:
     dest = VERIF / "seeded" / name
     dest.mkdir(parents=True, exist_ok=True)
     for f in ("patch.diff", "demo.py"):
-        shutil.copy(seed / f, dest / f)
+        if (seed / f).resolve() != (dest / f).resolve():
+            shutil.copy(seed / f, dest / f)
     patch = dest / "patch.diff"
     result = {"property": pid, "what": meta.get("what"), "needs": meta.get("needs"),
               "agent_ran": meta.get("ran"), "confirmed": {}}
